@@ -79,6 +79,15 @@ def run(ctx):
     res.floor("R16.1", "Generator::generate call in _generate", len(gen), 1)
     res.check(bool(bl) and all(g.block_dominates(bl[0].bb, c.bb) for c in gen), "R16.1", "build-before-generate|" + g.q, g.where(),
               "cmd.build() dominates generator.generate()", "_generate calls the generator without building the command first")
+    # the bin name is fixed before the command is built for the first time (building derives every subcommand's bin_name from it)
+    for q in ("clap_complete::aot::generator::generate", "clap_complete::aot::generator::generate_to"):
+        gb_ = fx.maybe_body(q)
+        if gb_ is None:
+            continue
+        sb_ = gb_.calls_to(r"Command::set_bin_name$")
+        builds_ = gb_.calls_to(r"Command::build$", r"generator::_generate$")
+        res.check(bool(sb_) and bool(builds_) and all(gb_.block_dominates(sb_[0].bb, c.bb) and c.bb != sb_[0].bb for c in builds_), "R16.1", "bin-name-before-build|" + q.rsplit("::", 1)[1], gb_.where(),
+                  "set_bin_name dominates every build/_generate", "%s builds the command before the requested bin name is set: subcommand bin names are derived from the wrong root, so the generated dispatch table and the per-level functions disagree" % q.rsplit("::", 1)[1])
     for q in ("clap_complete::aot::generator::generate", "clap_complete::aot::generator::generate_to"):
         b = fx.body(q)
         direct = b.calls_to(r"Generator>?::generate$")
